@@ -2,7 +2,12 @@ package main
 
 import (
 	"encoding/json"
+	"fmt"
 	"os"
+	"strings"
+
+	"github.com/olric-data/olric/internal/cluster/partitions"
+	"github.com/olric-data/olric/verif/cluster"
 )
 
 func readJSON(path string, v interface{}) error {
@@ -14,3 +19,33 @@ func readJSON(path string, v interface{}) error {
 }
 
 func dropViolations(ctx *runCtx) { ctx.rep.DropViolations() }
+
+// whereIs describes, white-box, which live members hold which copy of a key
+// and what the routing table says about its partition.
+func whereIs(c *cluster.Cluster, dmap, key string) string {
+	var sb strings.Builder
+	live := c.Live()
+	if len(live) == 0 {
+		return "no live member"
+	}
+	part := c.PartOf(dmap, key)
+	fmt.Fprintf(&sb, "partition %d; ", part)
+	for _, m := range live {
+		var po, bo []string
+		for _, o := range m.V.Primary.PartitionByID(part).Owners() {
+			po = append(po, o.Name)
+		}
+		for _, o := range m.V.Backup.PartitionByID(part).Owners() {
+			bo = append(bo, o.Name)
+		}
+		fmt.Fprintf(&sb, "%s sees owners=%v backups=%v", m.Name, po, bo)
+		if e, ok := m.V.DMap.VerifEntry(partitions.PRIMARY, dmap, key); ok {
+			fmt.Fprintf(&sb, " holds PRIMARY copy %q ts=%d", short(string(e.Value)), e.Timestamp)
+		}
+		if e, ok := m.V.DMap.VerifEntry(partitions.BACKUP, dmap, key); ok {
+			fmt.Fprintf(&sb, " holds BACKUP copy %q ts=%d", short(string(e.Value)), e.Timestamp)
+		}
+		sb.WriteString("; ")
+	}
+	return sb.String()
+}
